@@ -130,6 +130,7 @@ fn check_full(spec: &ProbSpec, sp: &Span, m: Meth, rtol: f64, atol_rel: f64, rk4
     let mut worst: f64 = 0.0;
     let mut skipped = 0usize;
     let mut probed = 0usize;
+    let mut batch: Vec<(f64, f64)> = vec![]; // (time, allowed error) of every probe
     for i in 0..grid.len() - 1 {
         let h = grid[i + 1] - grid[i];
         // a lower-order interpolant is only comparable to the step ends in the asymptotic range
@@ -151,6 +152,7 @@ fn check_full(spec: &ProbSpec, sp: &Span, m: Meth, rtol: f64, atol_rel: f64, rk4
                 Err(e) => return Outcome::viol(format!("{}: sol({:e}) inside step [{:e},{:e}] failed: {}", m.name(), t, grid[i], grid[i + 1], e)),
             };
             let e = max_abs_diff(&v, &prob.exact(t));
+            batch.push((t, allow));
             worst = worst.max(e / allow);
             if e > allow {
                 return Outcome::viol(format!(
@@ -161,6 +163,29 @@ fn check_full(spec: &ProbSpec, sp: &Span, m: Meth, rtol: f64, atol_rel: f64, rk4
         }
     }
     let _ = n;
+    // the same points through the batch interface, against the direction of integration and in a scattered
+    // order: "anywhere in the span" must not depend on the order in which the points are asked for
+    if batch.len() >= 2 {
+        let mut rev = batch.clone();
+        rev.reverse();
+        let mut scat = batch.clone();
+        let m2 = scat.len();
+        scat = (0..m2).map(|k| scat[(k * 7919 + 3) % m2]).collect();
+        for (what, order) in [("against the direction of integration", rev), ("in scattered order", scat)] {
+            let ts: Vec<f64> = order.iter().map(|p| p.0).collect();
+            match sol.sol_many(&ts) {
+                Ok(vs) => {
+                    for ((t, allow), v) in order.iter().zip(&vs) {
+                        let e = max_abs_diff(v, &prob.exact(*t));
+                        if e > *allow {
+                            return Outcome::viol(format!("{}: sol_many queried {} returns a value off by {:e} at t={:e} (allowed {:e}; the same point through sol() is within the bound)", m.name(), what, e, t, allow));
+                        }
+                    }
+                }
+                Err(e) => return Outcome::viol(format!("{}: sol_many failed for points inside accepted steps: {}", m.name(), e)),
+            }
+        }
+    }
     if probed == 0 {
         return Outcome::triv("all-steps-outside-asymptotic-range");
     }
